@@ -3,5 +3,5 @@ From Coq Require Import ZArith List.
 Require Import PV.Model.Policy.
 Require Extraction.
 Require Import ExtrOcamlBasic.
-Extraction "../ocaml/gen/ex_c16.ml" perform perform_prefix perform_old_selfsig usage comp_flags flags_primary flags_sub is_public is_protected is_unlocked
+Extraction "../ocaml/gen/ex_c16.ml" perform perform_prefix perform_old_selfsig perform_old_lockcheck perform_old_crash perform_old_identity usage comp_flags flags_primary flags_sub is_public is_protected is_unlocked
   check_attributes decrypt_route op_flags Z.add Z.land Z.lor.
